@@ -308,7 +308,8 @@ class _Component:
                 )
             else:
                 pval = _get_mand(config[cls._cparams["name"]], key)
-            if type(pval) not in cls._cparams["params"][key]["typ"]:
+            ptyp = dict if isinstance(pval, dict) else type(pval)
+            if ptyp not in cls._cparams["params"][key]["typ"]:
                 raise ValueError("Parameter {} is not of the correct type".format(key))
             fparams[key] = pval
 
